@@ -77,6 +77,35 @@ def case_interchange(ctx, s: Subject):
         ctx.case("arrow.to_arrow_ext_array_ls", s.desc(),
                  call_real(lambda: colres(NestedExtensionArray.from_arrow_ext_array(ext.to_arrow_ext_array(list_struct=True)))),
                  mcol(ans["model"]), spec_same, hyp=hyp, features=feats, nontrivial=nt, mode="ls_missing")
+    # import of a SLICED list-struct array (raw offsets into a larger buffer), e.g. what
+    # series.astype(ArrowDtype(list_struct)).iloc[k:] hands to the constructor
+    def sliced_ls():
+        pl = rng.randint(1, 3)
+        big = {"ty": ty, "rows": gen.junk_rows(rng, ty, pl) + s.content["rows"] + gen.junk_rows(rng, ty, rng.randint(0, 2))}
+        big_ext = NestedExtensionArray(gen.build_struct(big, "null", rng))
+        la_big = big_ext.chunked_list_struct_array.combine_chunks()
+        return la_big.slice(pl, len(s.content["rows"]))
+    if len(s.content["rows"]) > 0:
+        sl = call_real(sliced_ls)
+        if "ok" in sl:
+            ans = ctx.driver.call("initLS", ty=ty, chunks=[export.export_ls(sl["ok"])])
+            real = call_real(lambda: colres(NestedExtensionArray(sl["ok"])))
+            ctx.case("arrow.list_struct_import_sliced", s.desc(), real, mcol(ans["model"]), spec_same, hyp=hyp, features=feats,
+                     nontrivial=nt, mode="ls_missing")
+            # through pandas: a Series of the list-struct Arrow dtype handed to the nested constructor
+            ser_ls = call_real(lambda: colres(NestedExtensionArray.from_arrow_ext_array(
+                pd.Series(sl["ok"], dtype=pd.ArrowDtype(sl["ok"].type)).array)))
+            ctx.case("arrow.from_arrow_ext_array_list_struct_sliced", s.desc(), ser_ls, mcol(ans["model"]), spec_same, hyp=hyp,
+                     features=feats, nontrivial=nt, mode="ls_missing")
+
+    # pandas -> Arrow table -> pandas: the dtype travels as its string name in the pandas metadata
+    def table_roundtrip():
+        nf = NestedFrame({"nest": ser.reset_index(drop=True)})
+        back = pa.Table.from_pandas(nf).to_pandas()
+        assert back["nest"].dtype == ser.dtype, f"dtype {back['nest'].dtype} != {ser.dtype}"
+        return colres(back["nest"].array)
+    ctx.case("arrow.table_roundtrip_to_pandas", s.desc(), call_real(table_roundtrip), None, spec_same, hyp=hyp, features=feats,
+             nontrivial=nt)
     # transposing twice is the identity (chunk level) and types transpose back
     st = ext.chunked_array.type
     ctx.case("arrow.type_transpose_involutive", {"ty": ty},
